@@ -53,6 +53,26 @@ def _detach() -> int:
     return p.wait()
 
 
+def _guards(tier: str) -> None:
+    """A check must never hang or eat the machine: wall-clock alarm (exit 2) and an address-space
+    limit for the Python side (TLC JVMs are separate processes with their own -Xmx)."""
+    import resource
+    import signal
+
+    from .tlc import MachineryError
+
+    def _alarm(*_):
+        raise MachineryError("global watchdog: the check did not finish in time")
+
+    signal.signal(signal.SIGALRM, _alarm)
+    signal.alarm(int(os.environ.get("VERIF_WATCHDOG_S", 1500 if tier == "quick" else 7200)))
+    try:
+        limit = int(os.environ.get("VERIF_MEM_GB", "20")) << 30
+        resource.setrlimit(resource.RLIMIT_AS, (limit, limit))
+    except (ValueError, OSError):
+        pass
+
+
 def setup_repo_path() -> str:
     repo = os.environ.get("VERIF_REPO") or "/repo"
     src = str(Path(repo) / "src")
@@ -78,6 +98,7 @@ def main() -> int:
     from .tlc import MachineryError
 
     tier, seed = core.tier_seed(args.tier)
+    _guards(tier)
     repo = setup_repo_path()
     pid = args.prop.upper()
     rep = core.Report(property_id=pid, tier=tier, seed=seed)
